@@ -28,7 +28,7 @@ func (r *rwRT) ruleCloseContract() {
 	c.fn(relName(fn))
 	pos := r.w.FnPos(fn)
 	kindDelay := r.kindConst("kindDelay")
-	for _, n := range []int{0, 1, 2} {
+	for _, n := range []int{0, 1, 2, 3} {
 		for _, childKind := range []string{"kindDelay", "kindIf"} {
 			st := newState()
 			var elems []AV
@@ -57,7 +57,7 @@ func (r *rwRT) ruleCloseContract() {
 			})
 			outs := in.Run(st, fn, []AV{Sym{Name: "r", NN: true}, SliceV{Elems: elems}, mkInt(0), children}, nil)
 			r.account(in)
-			bad := ""
+			bad, combineBad := "", ""
 			for _, o := range outs {
 				if o.Panicked || o.St.Truncated {
 					continue
@@ -83,6 +83,33 @@ func (r *rwRT) ruleCloseContract() {
 						closed = append(closed, e.Args[1])
 					}
 				}
+				// between two statements of a list the combine decision is always taken on the block the
+				// first one handed back — whatever the next statement is (a statement that "never completes",
+				// such as a closing panic, still has to wait for the yields before it)
+				{
+					var pending AV
+					for _, e := range o.St.Events {
+						if e.Kind != "call" || e.Fn == nil || !inRw(e.Fn) {
+							continue
+						}
+						switch e.Fn.Name() {
+						case "rewriteStmt":
+							if pending != nil {
+								combineBad = fmt.Sprintf("n=%d: the next statement is rewritten into %s without the combine decision (combineIfNecessary) having been taken on it: after a yielding if/switch/loop the following statement would run before the yields", n, o.St.Render(pending))
+							}
+							pending = nil
+							if e.Ret != nil {
+								if nn, known := nilness(e.Ret); !(known && nn) {
+									pending = e.Ret
+								}
+							}
+						case "combineIfNecessary":
+							if len(e.Args) == 2 && pending != nil && sameAV(e.Args[1], pending) {
+								pending = nil
+							}
+						}
+					}
+				}
 				if open == nil {
 					continue // the last statement closed its block itself
 				}
@@ -99,6 +126,10 @@ func (r *rwRT) ruleCloseContract() {
 				if needs && !isClosed {
 					bad = fmt.Sprintf("n=%d, children kind %s: the open thunk-body block %s is not closed at the end of the list (last %s)", n, childKind, ob.Opaque, last)
 				}
+			}
+			if n >= 2 {
+				c.check(combineBad == "", "RW.CLOSE", fmt.Sprintf("combine decision between statements [%d stmt(s), block kind %s]", n, childKind), pos,
+					"between two statements of a list combineIfNecessary is always applied to the block the first one handed back", combineBad)
 			}
 			c.check(bad == "", "RW.CLOSE", fmt.Sprintf("rewriteStmts contract [%d stmt(s), block kind %s]", n, childKind), pos,
 				"at the end of a statement list the block returned by the last rewriteStmt call — the one still open — is closed when it is a thunk body; no other block is touched", bad)
